@@ -488,6 +488,16 @@ def make_mutation(desc):
 
         if desc[2] in ('unique_together', 'index_together'):
             value = [tuple(item) for item in value]
+        elif desc[2] == 'constraints':
+            value = [dict(item, type=getattr(models, item['type']))
+                     if isinstance(item.get('type'), str) else dict(item)
+                     for item in value]
+
+            for item in value:
+                if 'fields' in item:
+                    item['fields'] = tuple(item['fields'])
+        elif desc[2] == 'indexes':
+            value = [dict(item) for item in value]
 
         return M.ChangeMeta(desc[1], desc[2], value)
 
@@ -1509,6 +1519,56 @@ _BOOKKEEPING_TABLES = ('django_project_version', 'django_evolution',
                        'django_migrations')
 
 
+def run_custom_task(app_label, evolutions, database='default', trace=None):
+    """Evolve ONE app through the public task API with explicit evolutions:
+    ``EvolveAppTask(evolver, app, evolutions=[{'label':, 'mutations':}])``.
+
+    Same return value as :func:`run_evolve_command`.
+    """
+    from django.db import connections
+    from django_evolution.compat.apps import get_app
+    from django_evolution.evolve import EvolveAppTask, Evolver
+
+    result = {'error': None, 'stdout': '', 'stderr': ''}
+
+    with contextlib.ExitStack() as stack:
+        for alias, sink in (trace or {}).items():
+            def recorder(execute, sql, params, many, context, _sink=sink):
+                _sink.append((sql, params))
+                return execute(sql, params, many, context)
+
+            stack.enter_context(connections[alias].execute_wrapper(recorder))
+
+        with warnings.catch_warnings():
+            warnings.simplefilter('ignore')
+
+            try:
+                evolver = Evolver(database_name=database)
+                evolver.queue_task(EvolveAppTask(
+                    evolver=evolver, app=get_app(app_label),
+                    evolutions=[
+                        {'label': evo_label,
+                         'mutations': [make_mutation(desc)
+                                       for desc in descs]}
+                        for evo_label, descs in evolutions]))
+                evolver.evolve()
+            except Exception as e:
+                result['error'] = {'class': type(e).__name__,
+                                   'message': str(e)[:400]}
+
+    for alias in ALIASES:
+        H._reset_connection(connections[alias])
+
+    try:
+        from django_evolution.utils.migrations import \
+            clear_global_custom_migrations
+        clear_global_custom_migrations()
+    except Exception:
+        pass
+
+    return result
+
+
 def run_evolve_command(database='default', trace=None, **options):
     """call_command('evolve', ...) with captured output.
 
@@ -1554,6 +1614,15 @@ def run_evolve_command(database='default', trace=None, **options):
 
     for alias in ALIASES:
         H._reset_connection(connections[alias])
+
+    try:
+        # Process hygiene only (each real command is its own process): a
+        # failing prepare_tasks() leaves this module-global set.
+        from django_evolution.utils.migrations import \
+            clear_global_custom_migrations
+        clear_global_custom_migrations()
+    except Exception:
+        pass
 
     result['stdout'] = out.getvalue()
     result['stderr'] = err.getvalue()
@@ -1701,7 +1770,10 @@ def _c15_diff_sig(before, after, removed_apps=(), removed_models=()):
     return failures
 
 
-def c15_run_purge(labels, removed, flow):
+C15_PENDING = ['AddField', 'Tag', 'extra', 'IntegerField', {'null': True}]
+
+
+def c15_run_purge(labels, removed, flow, pending=False):
     """Stale-app scenario.
 
     Args:
@@ -1711,6 +1783,11 @@ def c15_run_purge(labels, removed, flow):
             (evolve --execute), 'api-purge' (Evolver.queue_purge_old_apps),
             'api-nopurge' (Evolver without purge tasks) or
             ['api-purge-app', label] (Evolver.queue_purge_app(label) only).
+        pending: if True (and the app "shop" stays installed) the same run
+            also has real work to do: shop gets a pending evolution
+            (C15_PENDING, a new nullable column on shop.Tag), so that a new
+            project version IS saved.  The table and signature entry of
+            shop are then exempt from the "unchanged" clauses.
     """
     from django_evolution.evolve import Evolver
 
@@ -1734,8 +1811,17 @@ def c15_run_purge(labels, removed, flow):
                 sig_before = stored_sig()
 
                 # The new code base: only the kept apps exist.
-                build_project(OrderedDict(
-                    (label, C15_POOL[label]) for label in kept))
+                new_spec = OrderedDict(
+                    (label, C15_POOL[label]) for label in kept)
+                pending = bool(pending and 'shop' in kept)
+
+                if pending:
+                    new_spec['shop'] = apply_descs_to_spec(
+                        C15_POOL['shop'], [C15_PENDING], 'shop')
+                    set_evolutions('shop', [
+                        ('add_extra', [make_mutation(C15_PENDING)])])
+
+                build_project(new_spec)
                 install_apps(kept)
             except Exception as e:
                 result['error'] = _error_info(e, 'setup')
@@ -1780,6 +1866,25 @@ def c15_run_purge(labels, removed, flow):
         expect_dropped = set(table for label in purged
                              for tables in owned[label].values()
                              for table in tables)
+
+        if pending:
+            # shop.Tag legitimately changes in this run.
+            tag_table = db_after.get(owned['shop']['Tag'][0])
+
+            if not run_error and not (tag_table and any(
+                    column[0] == 'extra'
+                    for column in tag_table['columns'])):
+                result['error'] = {'class': 'ScenarioInvalid',
+                                   'phase': 'pending',
+                                   'message': 'pending evolution of shop '
+                                              'was not applied'}
+                return result
+
+            for snapshot in (db_before, db_after):
+                snapshot.pop(owned['shop']['Tag'][0], None)
+
+            for snapshot in (sig_before, sig_after):
+                snapshot.pop('shop', None)
 
         if run_error:
             result['failures'].append((
@@ -2020,7 +2125,16 @@ def _c15_scenarios(tier, seed):
                 flows += [['api-purge-app', label] for label in removed]
 
             for flow in flows:
-                scenarios.append(('purge', labels, removed, flow))
+                scenarios.append(('purge', labels, removed, flow, False))
+
+            if 'shop' not in removed and (tier != 'quick' or
+                                          len(labels) in (2, 4)):
+                # the same run also applies a pending evolution of shop
+                for flow in (['command-nopurge', 'api-purge']
+                             if tier == 'quick' else
+                             ['command-nopurge', 'api-nopurge',
+                              'api-purge', 'command-purge']):
+                    scenarios.append(('purge', labels, removed, flow, True))
 
     for labels in C15_PROJECTS:
         if tier == 'quick' and len(labels) not in (2, 4):
@@ -2090,7 +2204,8 @@ def _c15_dispatch(scenario):
     kind = scenario[0]
 
     if kind == 'purge':
-        return c15_run_purge(scenario[1], scenario[2], scenario[3])
+        return c15_run_purge(scenario[1], scenario[2], scenario[3],
+                             pending=scenario[4])
 
     if kind == 'delete':
         return c15_run_delete(scenario[1], scenario[2], scenario[3],
@@ -2104,7 +2219,7 @@ def _c15_describe(scenario):
 
     if kind == 'purge':
         return {'kind': kind, 'apps': scenario[1], 'removed': scenario[2],
-                'flow': scenario[3]}
+                'flow': scenario[3], 'pending': scenario[4]}
 
     if kind == 'delete':
         return {'kind': kind, 'apps': scenario[1], 'app': scenario[2],
@@ -2127,6 +2242,9 @@ def suite_C15(tier='quick', seed=0):
         'as `evolve --execute --purge`, as Evolver.queue_purge_old_apps(), '
         'as `evolve --execute` without purge%s and (quick: 4-app project '
         'only) as Evolver.queue_purge_app() for each single stale app; '
+        'where the app shop stays installed the purge / no-purge runs are '
+        'repeated with a pending evolution of shop in the same run (so '
+        'that a new project version is really saved); '
         '(2) delete: every DeleteModel/DeleteApplication of every app of '
         '%s, in declared and reversed model order plus a project with an '
         'explicit through model, through an AppMutator on real tables; '
@@ -2148,7 +2266,8 @@ def replay_C15(inputs):
         flow = inputs['flow']
         outcome = c15_run_purge(inputs['apps'], inputs['removed'],
                                 tuple(flow) if isinstance(flow, list)
-                                else flow)
+                                else flow,
+                                pending=inputs.get('pending', False))
     elif kind == 'delete':
         outcome = c15_run_delete(inputs['apps'], inputs['app'],
                                  inputs['mutation'],
@@ -2417,11 +2536,19 @@ def _upgrade_target(models_spec, evolutions, label):
 _c16_control_cache = {}
 
 
-def _c16_control(models_spec, evolutions):
+def _c16_upgrade(evolutions, flow, database, trace=None):
+    if flow == 'task':
+        return run_custom_task(C16_APP, evolutions, database=database,
+                               trace=trace)
+
+    return run_evolve_command(database=database, execute=True, trace=trace)
+
+
+def _c16_control(models_spec, evolutions, flow='command'):
     """Single-database control run: the same upgrade with every model on
     'default' and no router.  Tells whether the generated upgrade is valid
     at all and what each model's tables / signature entry must look like."""
-    key = json.dumps([_json(models_spec), evolutions], sort_keys=True)
+    key = json.dumps([_json(models_spec), evolutions, flow], sort_keys=True)
 
     if key in _c16_control_cache:
         return _c16_control_cache[key]
@@ -2437,11 +2564,13 @@ def _c16_control(models_spec, evolutions):
             evolver_install('default')
             target = _upgrade_target(models_spec, evolutions, C16_APP)
             maps = build_project({C16_APP: target})
-            set_evolutions(C16_APP, [
-                (evo_label, [make_mutation(desc) for desc in descs])
-                for evo_label, descs in evolutions])
+            if flow != 'task':
+                set_evolutions(C16_APP, [
+                    (evo_label, [make_mutation(desc) for desc in descs])
+                    for evo_label, descs in evolutions])
+
             install_apps([C16_APP])
-            outcome = run_evolve_command(execute=True)
+            outcome = _c16_upgrade(evolutions, flow, 'default')
 
             if outcome['error']:
                 result['error'] = dict(outcome['error'],
@@ -2475,7 +2604,7 @@ def _db_state(alias):
     }
 
 
-def c16_run(model_names, routing, evolutions, order):
+def c16_run(model_names, routing, evolutions, order, flow='command'):
     """One C16 scenario.
 
     Args:
@@ -2483,12 +2612,17 @@ def c16_run(model_names, routing, evolutions, order):
         routing: {ModelName: alias} for every model.
         evolutions: [[label, [descs]], ...] for the app.
         order: the order in which the two databases are evolved.
+        flow: 'command' (evolutions discovered from the app's evolutions
+            module, `evolve --execute --database X`) or 'task' (the same
+            evolutions handed to ``EvolveAppTask(evolutions=...)``, the
+            public API for caller-supplied evolutions, then
+            ``Evolver(database_name=X).evolve()``).
     """
     psetup()
     result = {'error': None, 'failures': [], 'nontrivial': False}
     models_spec = OrderedDict((name, C16_MODELS[name])
                               for name in model_names)
-    control = _c16_control(models_spec, evolutions)
+    control = _c16_control(models_spec, evolutions, flow)
 
     if control['error']:
         result['error'] = dict(control['error'], phase='control')
@@ -2547,9 +2681,12 @@ def c16_run(model_names, routing, evolutions, order):
             # -- upgrade --------------------------------------------------
             target = _upgrade_target(models_spec, evolutions, C16_APP)
             build_project({C16_APP: target})
-            set_evolutions(C16_APP, [
-                (evo_label, [make_mutation(desc) for desc in descs])
-                for evo_label, descs in evolutions])
+
+            if flow != 'task':
+                set_evolutions(C16_APP, [
+                    (evo_label, [make_mutation(desc) for desc in descs])
+                    for evo_label, descs in evolutions])
+
             install_apps([C16_APP])
 
             touched = set()
@@ -2575,8 +2712,7 @@ def c16_run(model_names, routing, evolutions, order):
                 other = [name for name in ALIASES if name != alias][0]
                 other_before = _db_state(other)
                 trace = {other: []}
-                outcome = run_evolve_command(database=alias, execute=True,
-                                             trace=trace)
+                outcome = _c16_upgrade(evolutions, flow, alias, trace=trace)
                 other_after = _db_state(other)
 
                 if outcome['error']:
@@ -2644,12 +2780,14 @@ def _c16_scenarios(tier, seed):
     rng = random.Random(seed)
     scenarios = []
 
-    def add(model_names, evolutions_variants, assignments, orders):
+    def add(model_names, evolutions_variants, assignments, orders,
+            flows=('command',)):
         for routing in assignments:
             for evolutions in evolutions_variants:
                 for order in orders:
-                    scenarios.append((list(model_names), routing,
-                                      evolutions, list(order)))
+                    for flow in flows:
+                        scenarios.append((list(model_names), routing,
+                                          evolutions, list(order), flow))
 
     two = ['Alpha', 'Beta']
     assignments2 = [dict(zip(two, combo)) for combo in
@@ -2673,6 +2811,12 @@ def _c16_scenarios(tier, seed):
             add(two, variants, split, [orders[i % 2]])
 
         add(two, [[['e1', [['DeleteApplication']]]]], split, [orders[0]])
+
+        # caller-supplied evolutions (EvolveAppTask(evolutions=...))
+        for i, (first, second) in enumerate(chosen[:4]):
+            add(two, [[['e1', [first, second]]]], [split[i % 2]],
+                [orders[i % 2]], flows=('task',))
+
         # same-side assignments (trivial controls)
         add(two, [[['e1', list(chosen[0])]]],
             [assignments2[0], assignments2[3]], [orders[0]])
@@ -2688,6 +2832,11 @@ def _c16_scenarios(tier, seed):
                 [assignments2[0], assignments2[3]], [orders[0]])
 
         add(two, [[['e1', [['DeleteApplication']]]]], assignments2, orders)
+
+        for first, second in pairs:
+            add(two, [[['e1', [first, second]]]],
+                [assignments2[1], assignments2[2]], [orders[0]],
+                flows=('task',))
 
         three = ['Alpha', 'Beta', 'Gamma']
         assignments3 = [dict(zip(three, combo)) for combo in
@@ -2712,7 +2861,8 @@ def suite_C16(tier='quick', seed=0):
 
     def describe(scenario):
         return {'models': scenario[0], 'routing': scenario[1],
-                'evolutions': scenario[2], 'order': scenario[3]}
+                'evolutions': scenario[2], 'order': scenario[3],
+                'flow': scenario[4]}
 
     def runner(scenario):
         return c16_run(*scenario)
@@ -2733,12 +2883,15 @@ def suite_C16(tier='quick', seed=0):
         'the evolution(s) name models on both databases.'
         % ('quick: 10 (Alpha-mutation, Beta-mutation) pairs covering every '
            'mutation kind on each side, in one evolution or two, x the two '
-           'real splits of 2 models, plus DeleteApplication and same-side '
-           'controls.' if tier == 'quick' else
+           'real splits of 2 models, plus DeleteApplication, same-side '
+           'controls and 4 pairs handed to EvolveAppTask(evolutions=...) '
+           '(flow "task").' if tier == 'quick' else
            'thorough: ALL 64 pairs x {one evolution, two evolutions} x the '
            'two real splits x both database orders, DeleteApplication for '
-           'all 4 assignments, 12 same-side controls and 40 random 3-model '
-           'scenarios (3 of the 6 real splits each).'))
+           'all 4 assignments, 12 same-side controls, ALL 64 pairs x the '
+           'two real splits through EvolveAppTask(evolutions=...) (flow '
+           '"task") and 40 random 3-model scenarios (3 of the 6 real '
+           'splits each).'))
 
     return _run_suite('C16', scenarios, runner, describe, tier, exhaustive,
                       rule)
@@ -2746,10 +2899,654 @@ def suite_C16(tier='quick', seed=0):
 
 def replay_C16(inputs):
     outcome = c16_run(inputs['models'], inputs['routing'],
-                      inputs['evolutions'], inputs['order'])
+                      inputs['evolutions'], inputs['order'],
+                      inputs.get('flow', 'command'))
     return {'reproduced': bool(outcome['failures']),
             'error': outcome['error'],
             'failures': _json(outcome['failures'])}
+
+
+# ---------------------------------------------------------------------------
+# C14
+# ---------------------------------------------------------------------------
+
+C14_MODELS = OrderedDict([
+    ('pva', OrderedDict([
+        ('Doc', {
+            'fields': OrderedDict([
+                ('title', _c(20)),
+                ('pages', ('IntegerField', {'null': True})),
+                ('code', _c(8)),
+                ('rank', ('IntegerField', {'default': 0})),
+                ('obsolete', ('IntegerField', {'null': True})),
+            ]),
+            'meta': {'unique_together': [['pages', 'code']],
+                     'index_together': [['title', 'pages']]},
+        }),
+        ('Tag', {'fields': OrderedDict([
+            ('label', _c()),
+            ('weight', ('IntegerField', {'null': True})),
+        ])}),
+        ('Misc', {'fields': OrderedDict([
+            ('x', ('IntegerField', {'null': True}))])}),
+        ('Old', {'fields': OrderedDict([
+            ('y', ('IntegerField', {'null': True}))])}),
+        ('Extra', {'fields': OrderedDict([
+            ('z', ('IntegerField', {'null': True}))])}),
+    ])),
+    ('pvb', OrderedDict([
+        ('Memo', {'fields': OrderedDict([
+            ('text', _c(30)),
+            ('doc', ('ForeignKey', {'to': 'pva.Doc', 'null': True})),
+            ('prio', ('IntegerField', {'null': True})),
+            ('extra', ('IntegerField', {'null': True})),
+            ('tmp', ('IntegerField', {'null': True})),
+        ])}),
+    ])),
+])
+
+# "Atoms": groups of mutations that are valid independently of each other
+# (they touch disjoint fields/models), so any selection in any order is a
+# valid evolution history.
+C14_ATOMS = OrderedDict([
+    ('pva', OrderedDict([
+        ('ut3', [['ChangeMeta', 'Doc', 'unique_together',
+                  [['title', 'pages'], ['title', 'code'],
+                   ['code', 'rank']]]]),
+        ('it3', [['ChangeMeta', 'Doc', 'index_together',
+                  [['title', 'code'], ['pages', 'rank'],
+                   ['code', 'pages']]]]),
+        ('add_quote', [['AddField', 'Doc', 'summary', 'CharField',
+                        {'max_length': 50, 'initial': "it's"}]]),
+        ('add_percent', [['AddField', 'Doc', 'ratio', 'CharField',
+                          {'max_length': 10, 'initial': '50%'}]]),
+        ('add_date', [['AddField', 'Doc', 'added', 'DateField',
+                       {'initial': ['date', 2020, 1, 2]}]]),
+        ('add_bool', [['AddField', 'Doc', 'flag', 'BooleanField',
+                       {'initial': True}]]),
+        ('add_int_index', [['AddField', 'Doc', 'count', 'IntegerField',
+                            {'initial': 7, 'db_index': True}]]),
+        ('add_fk', [['AddField', 'Tag', 'doc', 'ForeignKey',
+                     {'related_model': 'pva.Doc', 'null': True}]]),
+        ('not_null', [['ChangeField', 'Tag', 'weight',
+                       {'null': False, 'initial': 0}]]),
+        ('rename_field', [['RenameField', 'Tag', 'label', 'name', {}]]),
+        ('delete_field', [['DeleteField', 'Doc', 'obsolete']]),
+        ('max_length', [['ChangeField', 'Doc', 'title',
+                         {'max_length': 40}]]),
+        ('add_m2m', [['AddField', 'Tag', 'docs', 'ManyToManyField',
+                      {'related_model': 'pva.Doc'}]]),
+        ('rename_model', [['RenameModel', 'Misc', 'Various',
+                           {'db_table': 'pva_misc'}]]),
+        ('delete_model', [['DeleteModel', 'Old']]),
+        ('idx2', [['ChangeMeta', 'Tag', 'indexes', [
+            {'name': 'tag_idx_a', 'fields': ['weight']},
+            {'name': 'tag_idx_b', 'fields': ['weight', 'id']},
+            {'name': 'tag_idx_c', 'fields': ['id', 'weight']}]]]),
+        ('cons2', [['ChangeMeta', 'Extra', 'constraints', [
+            {'type': 'UniqueConstraint', 'name': 'extra_uq_a',
+             'fields': ['z']},
+            {'type': 'UniqueConstraint', 'name': 'extra_uq_b',
+             'fields': ['z', 'id']}]]]),
+    ])),
+    ('pvb', OrderedDict([
+        ('add_plain', [['AddField', 'Memo', 'note', 'CharField',
+                        {'max_length': 10, 'initial': 'n'}]]),
+        ('ut3', [['ChangeMeta', 'Memo', 'unique_together',
+                  [['text', 'prio'], ['text', 'doc'], ['prio', 'doc']]]]),
+        ('delete_field', [['DeleteField', 'Memo', 'extra']]),
+        ('rename_field', [['RenameField', 'Memo', 'tmp', 'temp', {}]]),
+    ])),
+])
+
+
+def _c14_descs(label, atom_names):
+    return [desc for name in atom_names for desc in C14_ATOMS[label][name]]
+
+
+def _c14_expand(scenario):
+    """Scenario -> {label: {'start': n, 'evolutions': [(evo label, descs,
+    extra attrs)]}} with atoms expanded to mutation descriptions."""
+    result = OrderedDict()
+
+    for label, app in scenario['apps'].items():
+        evolutions = []
+
+        for item in app['evolutions']:
+            evo_label, atom_names = item[0], item[1]
+            extra = item[2] if len(item) > 2 else {}
+            evolutions.append((evo_label, _c14_descs(label, atom_names),
+                               extra))
+
+        result[label] = {'start': app.get('start', 0),
+                         'evolutions': evolutions}
+
+    return result
+
+
+def _c14_install(expanded, upto_final_models=True):
+    """Install every app at its start version, then move the code to the
+    final version.  Returns the labels."""
+    labels = list(expanded)
+    start_spec = OrderedDict()
+    final_spec = OrderedDict()
+
+    for label, app in expanded.items():
+        applied = app['evolutions'][:app['start']]
+        start_spec[label] = _upgrade_target(
+            C14_MODELS[label], [(e[0], e[1]) for e in applied], label)
+        final_spec[label] = _upgrade_target(
+            C14_MODELS[label], [(e[0], e[1]) for e in app['evolutions']],
+            label)
+
+    maps = build_project(start_spec)
+
+    for label, app in expanded.items():
+        applied = app['evolutions'][:app['start']]
+        set_evolutions(label, [
+            (e[0], [make_mutation(desc) for desc in e[1]])
+            for e in applied] if applied else None)
+
+    install_apps(labels)
+    evolver_install('default')
+    rows = _default_rows(maps)
+    H._insert_rows({}, rows, 'default')
+    build_project(final_spec)
+    install_apps(labels)
+
+    return labels
+
+
+def _c14_set_pending(expanded, with_pending):
+    for label, app in expanded.items():
+        evolutions = app['evolutions'] if with_pending else \
+            app['evolutions'][:app['start']]
+
+        if not evolutions:
+            set_evolutions(label, None)
+            continue
+
+        extra = {}
+
+        for evo_label, _descs, attrs in evolutions:
+            if attrs:
+                extra[evo_label] = dict(
+                    (key, [tuple(item) if isinstance(item, list) else item
+                           for item in value])
+                    for key, value in attrs.items())
+
+        set_evolutions(label, [
+            (evo_label, [make_mutation(desc) for desc in descs])
+            for evo_label, descs, _attrs in evolutions], extra)
+
+
+def parse_preview(stdout):
+    """Statements of `evolve --sql` output (headers/comments dropped)."""
+    return [line for line in stdout.splitlines()
+            if line.strip() and not line.startswith('--')]
+
+
+def sql_literal(value):
+    """The SQLite literal for a bound parameter value."""
+    import datetime
+    import decimal
+
+    if value is None:
+        return 'NULL'
+
+    if isinstance(value, bool):
+        return '1' if value else '0'
+
+    if isinstance(value, (int, float)):
+        return repr(value)
+
+    if isinstance(value, decimal.Decimal):
+        return str(value)
+
+    if isinstance(value, bytes):
+        return "X'%s'" % value.hex()
+
+    if isinstance(value, (datetime.date, datetime.datetime, datetime.time)):
+        value = value.isoformat(' ') if isinstance(
+            value, datetime.datetime) else value.isoformat()
+
+    return "'%s'" % str(value).replace("'", "''")
+
+
+def render_executed(sql, params):
+    if params:
+        return sql % tuple(sql_literal(param) for param in params)
+
+    return sql
+
+
+def _lib_render(sql, params):
+    from django_evolution.db import EvolutionOperationsMulti
+
+    if not params:
+        return sql
+
+    qp = EvolutionOperationsMulti('default').get_evolver().quote_sql_param
+
+    return sql % tuple(qp(param) for param in params)
+
+
+def _statement_targets(statements):
+    import re
+
+    result = []
+
+    for statement in statements:
+        match = re.search(r'(?:TABLE|INTO|ON|FROM|INDEX) "([^"]+)"',
+                          statement)
+        result.append(match.group(1) if match else statement[:30])
+
+    return result
+
+
+def c14_outputs(scenario, execute=False):
+    """Install the scenario and return the command outputs.
+
+    Returns:
+        dict: 'sql' (stdout of ``evolve --sql``), 'hint' (stdout of ``evolve
+        --hint`` with only the already applied evolutions present),
+        'hint_sql' (``evolve --hint --sql``) and, with ``execute=True``,
+        'executed' (rendered statements ``evolve --execute`` sent to the
+        database, bookkeeping dropped) plus 'errors'.
+    """
+    psetup()
+    expanded = _c14_expand(scenario)
+    labels = list(expanded)
+    result = {'errors': {}}
+    pcleanup(labels)
+
+    try:
+        with warnings.catch_warnings():
+            warnings.simplefilter('ignore')
+            _c14_install(expanded)
+
+            _c14_set_pending(expanded, with_pending=False)
+
+            for key, options in (('hint', {'hint': True}),
+                                 ('hint_sql', {'hint': True,
+                                               'compile_sql': True})):
+                outcome = run_evolve_command(**options)
+                result[key] = outcome['stdout']
+
+                if outcome['error']:
+                    result['errors'][key] = outcome['error']
+
+            _c14_set_pending(expanded, with_pending=True)
+            outcome = run_evolve_command(compile_sql=True)
+            result['sql'] = outcome['stdout']
+
+            if outcome['error']:
+                result['errors']['sql'] = outcome['error']
+
+            if execute:
+                trace = {'default': []}
+                outcome = run_evolve_command(execute=True, trace=trace)
+
+                if outcome['error']:
+                    result['errors']['execute'] = dict(
+                        outcome['error'], stdout=outcome['stdout'][-300:])
+
+                result['executed_raw'] = [
+                    (sql, params)
+                    for sql, params in trace_writes(trace['default'])
+                    if not is_bookkeeping(sql)]
+                result['executed'] = [
+                    render_executed(sql, params)
+                    for sql, params in result['executed_raw']]
+    except Exception as e:
+        result['errors']['setup'] = _error_info(e, 'setup')
+    finally:
+        pcleanup(labels)
+
+    return result
+
+
+def _first_difference(a, b):
+    for i, (x, y) in enumerate(zip(a, b)):
+        if x != y:
+            return {'index': i, 'first': x, 'second': y}
+
+    if len(a) != len(b):
+        i = min(len(a), len(b))
+        return {'index': i,
+                'first': a[i] if i < len(a) else None,
+                'second': b[i] if i < len(b) else None,
+                'lengths': [len(a), len(b)]}
+
+    return None
+
+
+def c14_seed_outputs(scenarios, seeds, timeout=1500):
+    """Run :func:`c14_outputs` for all scenarios in one fresh interpreter
+    per PYTHONHASHSEED value.  Returns {seed: [outputs...]} (or an error
+    string per seed)."""
+    import tempfile
+
+    tmpdir = tempfile.mkdtemp(prefix='c14_', dir=os.getcwd())
+    infile = os.path.join(tmpdir, 'in.json')
+
+    with open(infile, 'w') as fp:
+        json.dump(scenarios, fp)
+
+    procs = []
+
+    for seed in seeds:
+        workdir = os.path.join(tmpdir, 'seed%s' % seed)
+        os.mkdir(workdir)
+        env = dict(os.environ)
+        env.update({
+            'PYTHONHASHSEED': str(seed),
+            # inherit the parent's path so that a scratch checkout of the
+            # system under test (mutant runs) is used by the workers too
+            'PYTHONPATH': os.environ.get('PYTHONPATH') or
+            '/repo:/repo/tests:/verif',
+            'DJANGO_SETTINGS_MODULE': 'settings',
+            'PYTHONDONTWRITEBYTECODE': '1',
+        })
+        outfile = os.path.join(workdir, 'out.json')
+        proc = subprocess.Popen(
+            [sys.executable, '-m', 'adapters.suites_refs', 'c14-worker',
+             infile, outfile],
+            cwd=workdir, env=env, stdout=subprocess.DEVNULL,
+            stderr=subprocess.PIPE)
+        procs.append((seed, proc, outfile))
+
+    def collect():
+        import shutil
+
+        results = {}
+
+        for seed, proc, outfile in procs:
+            try:
+                _out, err = proc.communicate(timeout=timeout)
+            except subprocess.TimeoutExpired:
+                proc.kill()
+                results[seed] = 'timeout'
+                continue
+
+            if proc.returncode != 0 or not os.path.exists(outfile):
+                results[seed] = 'worker failed: %s' % (
+                    err.decode('utf-8', 'replace')[-500:])
+                continue
+
+            with open(outfile) as fp:
+                results[seed] = json.load(fp)
+
+        shutil.rmtree(tmpdir, ignore_errors=True)
+
+        return results
+
+    return collect
+
+
+def _c14_worker(infile, outfile):
+    with open(infile) as fp:
+        scenarios = json.load(fp, object_pairs_hook=OrderedDict)
+
+    outputs = []
+
+    for scenario in scenarios:
+        out = c14_outputs(scenario, execute=False)
+        outputs.append({'sql': out.get('sql'), 'hint': out.get('hint'),
+                        'hint_sql': out.get('hint_sql'),
+                        'errors': out['errors']})
+
+    with open(outfile, 'w') as fp:
+        json.dump(outputs, fp)
+
+
+def _c14_scenarios(tier, seed):
+    rng = random.Random(seed)
+    scenarios = []
+
+    def one_app(label, evolutions, start=0):
+        return {'apps': OrderedDict([(label, {'start': start,
+                                              'evolutions': evolutions})])}
+
+    # every atom alone
+    for label, atoms in C14_ATOMS.items():
+        if label == 'pvb':
+            continue
+
+        for name in atoms:
+            scenarios.append(one_app(label, [['e1', [name]]]))
+
+    names_a = list(C14_ATOMS['pva'])
+    names_b = list(C14_ATOMS['pvb'])
+
+    def random_history(names, steps):
+        pool = list(names)
+        rng.shuffle(pool)
+        evolutions = []
+
+        for i in range(steps):
+            size = rng.randint(1, 4)
+            chosen, pool = pool[:size], pool[size:]
+
+            if chosen:
+                evolutions.append(['e%d' % (i + 1), chosen])
+
+        return evolutions
+
+    count = 8 if tier == 'quick' else 60
+
+    for i in range(count):
+        history = random_history(names_a, rng.randint(1, 3))
+        start = rng.randint(0, len(history) - 1) if i % 3 == 0 else 0
+        scenarios.append(one_app('pva', history, start))
+
+    # two apps, with and without declared evolution dependencies
+    count = 6 if tier == 'quick' else 40
+
+    for i in range(count):
+        history_a = random_history(names_a, rng.randint(1, 2))
+        history_b = random_history(names_b, rng.randint(1, 2))
+        variant = i % 3
+
+        if variant == 1:
+            # pva's first pending evolution must run after pvb's
+            history_a[0] = history_a[0] + [
+                {'AFTER_EVOLUTIONS': [['pvb', history_b[0][0]]]}]
+        elif variant == 2:
+            history_b[0] = history_b[0] + [
+                {'AFTER_EVOLUTIONS': [['pva', history_a[-1][0]]]}]
+
+        scenarios.append({'apps': OrderedDict([
+            ('pva', {'start': 0, 'evolutions': history_a}),
+            ('pvb', {'start': 0, 'evolutions': history_b}),
+        ])})
+
+    return scenarios
+
+
+def suite_C14(tier='quick', seed=0):
+    psetup()
+    scenarios = _c14_scenarios(tier, seed)
+    seeds = [0, 1, 2] if tier == 'quick' else [0, 1, 2, 3, 4, 5, 6, 7]
+    t0 = time.time()
+    collect = c14_seed_outputs(_json(scenarios), seeds)
+    local_outputs = {}
+
+    def describe(scenario):
+        return {'scenario': scenario, 'seeds': seeds}
+
+    def runner(scenario):
+        index = scenarios.index(scenario)
+        out = c14_outputs(scenario, execute=True)
+        local_outputs[index] = out
+        result = {'error': None, 'failures': [], 'nontrivial': False}
+
+        for key in ('setup', 'sql'):
+            if key in out['errors']:
+                result['error'] = dict(out['errors'][key],
+                                       phase='local-' + key)
+                return result
+
+        preview = parse_preview(out['sql'])
+        executed = out['executed']
+        result['nontrivial'] = bool(preview)
+
+        if 'execute' in out['errors']:
+            # The generated SQL failed half way (not this property's
+            # business): what WAS sent, including the failing statement,
+            # must still be the beginning of the preview.
+            result['execution_failed'] = out['errors']['execute']
+            preview = preview[:len(executed)]
+
+        # (1) same statements in the same order: the executed statements
+        # are rendered the way the preview renders parameters (the
+        # library's own quote_sql_param), so only structure/order counts.
+        lib_rendered = [_lib_render(sql, params)
+                        for sql, params in out['executed_raw']]
+        difference = _first_difference(preview, lib_rendered)
+
+        if difference:
+            result['failures'].append(('preview-statements-in-order', {
+                'index': difference['index'],
+                'preview': difference['first'],
+                'executed': difference['second'],
+                'lengths': [len(preview), len(lib_rendered)],
+                'preview_tables': _statement_targets(preview),
+                'executed_tables': _statement_targets(lib_rendered)}))
+        else:
+            # (2) "with parameters substituted": each previewed statement
+            # must be the executed statement with its bound parameters
+            # written as SQL literals.
+            for i, (shown, real) in enumerate(zip(preview, executed)):
+                if shown != real:
+                    result['failures'].append((
+                        'preview-parameters-substituted', {
+                            'index': i, 'preview': shown,
+                            'executed_with_literals': real,
+                            'bound_parameters': [
+                                repr(param) for param in
+                                out['executed_raw'][i][1] or ()]}))
+                    break
+
+        return result
+
+    rule = (
+        'Pending upgrades over the fixed models C14_MODELS (apps pva [Doc, '
+        'Tag, Misc, Old, Extra] and pvb [Memo -> pva.Doc]): histories of 1-3 '
+        'evolutions of 1-4 "atoms" each, drawn without replacement from '
+        'C14_ATOMS (ChangeMeta unique_together/index_together with 3 '
+        'tuples, AddField with quote/percent/date/bool/int initial values, '
+        'AddField FK and M2M, ChangeField null->not null and max_length, '
+        'RenameField, DeleteField, RenameModel, DeleteModel, ChangeMeta '
+        'indexes/constraints), installed at '
+        'a start version through the real Evolver and upgraded with the '
+        'real `evolve` command. %s For every scenario (a) `evolve --sql` '
+        'stdout is compared statement by statement with what `evolve '
+        '--execute` sends through connection.execute_wrapper on the same '
+        'database (bound parameters rendered as SQLite literals; reads, '
+        'savepoints, FK pragmas and version/evolution/contenttype '
+        'bookkeeping dropped), and (b) `evolve --sql`, `evolve --hint` and '
+        '`evolve --hint --sql` are produced in a fresh interpreter per '
+        'PYTHONHASHSEED in %r and must be byte-identical. Non-trivial = '
+        'the preview contains at least one statement.'
+        % ('quick: every pva atom alone + 8 random one-app histories '
+           '(every third from a later start version) + 6 two-app upgrades '
+           '(no / forward / backward cross-app evolution dependency).'
+           if tier == 'quick' else
+           'thorough: every atom alone + 60 random one-app + 40 random '
+           'two-app histories.', seeds))
+
+    report = _run_suite('C14', scenarios, runner, describe, tier, False,
+                        rule)
+
+    # -- hash seed clause ---------------------------------------------------
+    by_seed = collect()
+    seed_failures = 0
+    report['executions_failed_midway'] = sum(
+        1 for out in local_outputs.values()
+        if 'execute' in out['errors'])
+
+    for seed_value, outputs in by_seed.items():
+        if not isinstance(outputs, list):
+            report['skipped']['seed-worker/%s' % seed_value] = str(outputs)
+
+    good = OrderedDict((seed_value, outputs)
+                       for seed_value, outputs in by_seed.items()
+                       if isinstance(outputs, list))
+
+    for index, scenario in enumerate(scenarios):
+        for key in ('sql', 'hint', 'hint_sql'):
+            variants = OrderedDict()
+
+            for seed_value, outputs in good.items():
+                errors = outputs[index].get('errors') or {}
+
+                if 'setup' in errors or key in errors:
+                    continue
+
+                variants.setdefault(outputs[index].get(key), []).append(
+                    seed_value)
+
+            if len(variants) > 1:
+                texts = list(variants)
+                difference = _first_difference(texts[0].splitlines(),
+                                               texts[1].splitlines())
+                inputs = describe(scenario)
+                observed = {
+                    'output': key,
+                    'seeds_by_variant': list(variants.values()),
+                    'first_difference': difference,
+                }
+                clause = 'hash-seed-deterministic'
+                known = _is_known('C14', clause, _json(inputs), observed)
+                name = '%s%s' % (clause, '' if known else ' (UNKNOWN)')
+                report['failure_counts'][name] = \
+                    report['failure_counts'].get(name, 0) + 1
+                seed_failures += 1
+                listed = sum(1 for item in report['failures']
+                             if item['clause'] == clause)
+
+                if len(report['failures']) < 10 and listed < 4:
+                    report['failures'].append({
+                        'clause': clause, 'inputs': _json(inputs),
+                        'observed': _json(observed), 'known': known})
+
+    report['seed_runs'] = dict((str(seed_value),
+                                len(outputs) if isinstance(outputs, list)
+                                else outputs)
+                               for seed_value, outputs in by_seed.items())
+    report['elapsed'] = round(time.time() - t0, 2)
+
+    return report
+
+
+def replay_C14(inputs):
+    scenario = inputs['scenario']
+    out = c14_outputs(scenario, execute=True)
+    result = {'errors': out['errors']}
+    preview = parse_preview(out.get('sql') or '')
+    executed = out.get('executed') or []
+
+    if 'execute' in out['errors']:
+        preview = preview[:len(executed)]
+
+    difference = _first_difference(preview, executed)
+    result['preview_vs_execution'] = difference
+    seeds = inputs.get('seeds') or [0, 1, 2]
+    by_seed = c14_seed_outputs([_json(scenario)], seeds)()
+    variants = {}
+
+    for seed_value, outputs in by_seed.items():
+        if isinstance(outputs, list):
+            for key in ('sql', 'hint', 'hint_sql'):
+                variants.setdefault(key, set()).add(outputs[0].get(key))
+
+    result['seed_variants'] = dict((key, len(value))
+                                   for key, value in variants.items())
+    result['reproduced'] = bool(difference) or any(
+        count > 1 for count in result['seed_variants'].values())
+
+    return result
 
 
 # ---------------------------------------------------------------------------
@@ -2863,7 +3660,134 @@ def _c15_known_through(inputs, observed):
                for info in pool[inputs['app']][name]['fields'].values())
 
 
+def _c16_known_rename_elsewhere(inputs, observed):
+    message = ((observed or {}).get('error') or {}).get('message', '')
+
+    if 'could not be found' not in message:
+        return False
+
+    database = observed.get('database')
+    any_kind = inputs.get('flow') == 'task'
+
+    for _label, descs in inputs['evolutions']:
+        for desc in descs:
+            if ((desc[0] == 'RenameModel' or any_kind) and
+                len(desc) > 1 and
+                inputs['routing'].get(desc[1]) not in (None, database) and
+                '.%s"' % desc[1] in message):
+                return True
+
+    return False
+
+
+def _c14_atoms(inputs):
+    names = set()
+
+    for label, app in inputs['scenario']['apps'].items():
+        for item in app['evolutions'][app.get('start', 0):]:
+            names.update(item[1])
+
+    return names
+
+
+def _c14_known_order(inputs, observed):
+    apps = inputs['scenario']['apps']
+    labels = list(apps)
+
+    for position, label in enumerate(labels):
+        for item in apps[label]['evolutions']:
+            extra = item[2] if len(item) > 2 else {}
+
+            for dep in extra.get('AFTER_EVOLUTIONS', []):
+                if (isinstance(dep, (list, tuple)) and dep[0] in labels and
+                    labels.index(dep[0]) > position):
+                    return True
+
+    return False
+
+
 KNOWN = [
+    {
+        'property': 'C14',
+        'clause': 'hash-seed-deterministic',
+        'match': 'a pending ChangeMeta(unique_together | index_together) '
+                 'that adds (or removes) two or more tuples (atoms ut3 / '
+                 'it3); outputs `evolve --sql` and `evolve --hint --sql`',
+        'predicate': lambda inputs, observed: (
+            observed.get('output') in ('sql', 'hint_sql') and
+            bool(_c14_atoms(inputs) & set(['ut3', 'it3']))),
+        'what': 'BaseEvolutionOperations.change_meta_unique_together / '
+                'change_meta_index_together turn the old and new values '
+                'into Python sets and emit DROP/CREATE INDEX statements '
+                'while iterating over those sets, so the statement order '
+                'depends on the string hash seed of the process.',
+        'inputs': {'scenario': {'apps': {'pva': {
+            'start': 0, 'evolutions': [['e1', ['ut3']]]}}},
+            'seeds': [0, 1, 2]},
+    },
+    {
+        'property': 'C14',
+        'clause': 'preview-parameters-substituted',
+        'match': 'a statement with a bound string parameter containing a '
+                 'single quote, or a bound non-string/non-number parameter '
+                 '(date) - atoms add_quote / add_date',
+        'predicate': lambda inputs, observed: bool(
+            _c14_atoms(inputs) & set(['add_quote', 'add_date'])),
+        'what': 'SQLExecutor.run_sql(capture=True) renders parameters with '
+                'BaseEvolutionOperations.quote_sql_param, which escapes a '
+                'quote as backslash-quote (not SQL) and returns every '
+                'non-string value unchanged, so a date is printed bare '
+                '(2020-01-02, an arithmetic expression) while execution '
+                'binds the real value.',
+        'inputs': {'scenario': {'apps': {'pva': {
+            'start': 0, 'evolutions': [['e1', ['add_date']]]}}},
+            'seeds': [0]},
+    },
+    {
+        'property': 'C14',
+        'clause': 'preview-statements-in-order',
+        'match': 'two apps with pending evolutions where an evolution of '
+                 'the app queued FIRST declares AFTER_EVOLUTIONS on an '
+                 'evolution of the app queued later',
+        'predicate': _c14_known_order,
+        'what': '`evolve --sql` prints task.sql task by task in queue '
+                '(INSTALLED_APPS) order, while `evolve --execute` runs the '
+                'batches built from the dependency graph, so with a '
+                'cross-app evolution dependency the apps\' statements are '
+                'executed in the opposite order to the preview.',
+        'inputs': {'scenario': {'apps': OrderedDict([
+            ('pva', {'start': 0, 'evolutions': [
+                ['e1', ['add_bool'],
+                 {'AFTER_EVOLUTIONS': [['pvb', 'e1']]}]]}),
+            ('pvb', {'start': 0, 'evolutions': [['e1', ['add_plain']]]}),
+        ])}, 'seeds': [0]},
+    },
+    {
+        'property': 'C16',
+        'clause': 'evolve-succeeds',
+        'match': 'the evolutions contain RenameModel(M, ...) - or, with '
+                 'caller-supplied evolutions (flow "task"), ANY model '
+                 'mutation on M - where the router puts M on the OTHER '
+                 'database than the one being evolved; error "The model '
+                 'signature for \"app.M\" could not be found."',
+        'predicate': _c16_known_rename_elsewhere,
+        'what': 'BaseModelMutation.is_mutable() computes `db_name = '
+                '(database or get_database_for_model_name(...))` and so '
+                'returns True for every model whenever a database name is '
+                'passed (the Evolver always passes one); RenameModel is '
+                'also exempt from the changed-models filter of '
+                'get_app_pending_mutations() (and caller-supplied '
+                'evolutions are not filtered at all), so the mutation is '
+                'run against the database that does not hold the model and '
+                'the whole upgrade of that database fails instead of '
+                'skipping it.',
+        'inputs': {'models': ['Alpha', 'Beta'],
+                   'routing': {'Alpha': 'default', 'Beta': 'db_multi'},
+                   'evolutions': [['e1', [
+                       ['RenameModel', 'Beta', 'BetaX',
+                        {'db_table': 'multi_beta'}]]]],
+                   'order': ['default', 'db_multi'], 'flow': 'command'},
+    },
     {
         'property': 'C15',
         'clause': 'purge-runs',
@@ -2976,6 +3900,10 @@ KNOWN = [
 
 
 def _main(argv):
+    if argv[1] == 'c14-worker':
+        _c14_worker(argv[2], argv[3])
+        return
+
     prop = argv[1]
     tier = argv[2] if len(argv) > 2 else 'quick'
     seed = int(argv[3]) if len(argv) > 3 else 0
